@@ -25,7 +25,8 @@ RULE = (
 ASSUMPTIONS = [
     "configurations the constructors document as unsupported are not generated (normalisation with k>=2; pre-activation ConvBlock with different input/output signatures; banks for which a residual sum would meet different type sets)",
     "relative-defect threshold 2e-3 (see DESIGN 1.3); max-pool ties are measure-zero for N(0,1) inputs and covered by the re-draw rule",
-    "a float defect above the tolerance is not reported when the model is numerically ill-conditioned at that input: a relative input perturbation of 1e-6 already moves an output block by more than tolerance/4 (label ill_conditioned_excluded)",
+    "cases in which some max-pooling patch has its two largest pixel norms within a relative 1e-3 of each other (observed by a harness-side wrapper of MaxNormPool.__call__) are excluded (label pool_tie_excluded): max pooling is only required to be equivariant where the maximum is unique",
+    "a float defect above the tolerance is not reported when the model is numerically ill-conditioned at that input: a relative perturbation of 1e-6 of the input or of the parameters already moves an output block by more than tolerance/4 (label ill_conditioned_excluded)",
     "evaluations whose outputs are non-finite or exceed 1e6 in magnitude on either side (float32 ill-conditioning of the eigh whitening far from initialisation) are excluded and counted under the label nonfinite_or_huge_excluded",
 ]
 CONFIG = {
@@ -45,6 +46,63 @@ def draw_case(data, tier):
     cfg["gs"] = [gen.draw_g(data, cfg["d"], "g") for _ in range(3)]
     cfg["all_g"] = tier == "thorough" and cfg["d"] == 2
     return cfg
+
+
+class _PoolMarginProbe:
+    """Harness-side observation of the carve-out "the per-patch maximum norm is attained at a unique pixel": while active,
+    ml.MaxNormPool.__call__ is wrapped so that the smallest relative gap between the two largest pixel norms of any patch is
+    recorded (eager calls only; traced calls pass through). Nothing in /repo is touched."""
+
+    def __init__(self):
+        self.min_margin = float("inf")
+
+    def __enter__(self):
+        import jax
+        import ginjax.ml.layers as layers
+
+        self._cls = layers.MaxNormPool
+        self._orig = layers.MaxNormPool.__call__
+        probe = self
+
+        def wrapped(self_layer, x):
+            try:
+                for (k, p), blk in x.items():
+                    if isinstance(blk, jax.core.Tracer):
+                        continue
+                    a = np.asarray(blk, dtype=np.float64)
+                    D = x.D
+                    P = self_layer.patch_len
+                    flat = a.reshape(a.shape[: 1 + D] + (-1,))  # (c, spatial, comps)
+                    shp = (a.shape[0],)
+                    for n in a.shape[1 : 1 + D]:
+                        shp += (n // P, P)
+                    v = flat.reshape(shp + (flat.shape[-1],))
+                    # (c, patches..., pixels-in-patch, comps)
+                    v = np.moveaxis(v, [2 * i + 2 for i in range(D)], list(range(-D - 1, -1)))
+                    v = v.reshape(v.shape[: 1 + D] + (-1, flat.shape[-1]))
+                    nr = np.sqrt((v**2).sum(-1))
+                    order = np.argsort(nr, axis=-1)
+                    if nr.shape[-1] >= 2:
+                        i1, i2 = order[..., -1:], order[..., -2:-1]
+                        n1 = np.take_along_axis(nr, i1, -1)[..., 0]
+                        n2 = np.take_along_axis(nr, i2, -1)[..., 0]
+                        v1 = np.take_along_axis(v, i1[..., None], -2)[..., 0, :]
+                        v2 = np.take_along_axis(v, i2[..., None], -2)[..., 0, :]
+                        scale = np.maximum(n1, 1e-30)
+                        gap = (n1 - n2) / scale
+                        differ = np.abs(v1 - v2).max(-1) / scale > 1e-3  # a tie between equal values is harmless
+                        harmful = gap[differ]
+                        if harmful.size:
+                            probe.min_margin = min(probe.min_margin, float(harmful.min()))
+            except Exception:  # noqa: BLE001  (the probe must never disturb the call)
+                pass
+            return probe._orig(self_layer, x)
+
+        layers.MaxNormPool.__call__ = wrapped
+        return self
+
+    def __exit__(self, *a):
+        self._cls.__call__ = self._orig
 
 
 def check_equivariance(cfg, model, prop="C07", evals_box=None):
@@ -68,9 +126,15 @@ def check_equivariance(cfg, model, prop="C07", evals_box=None):
         return out
 
     X = netgen.model_input(cfg, cfg["xseed"])
-    base = run(X)
+    with _PoolMarginProbe() as probe:
+        base = run(X)
     base_np = {t: np.asarray(v) for t, v in base.items()}
     evals = 0
+    if probe.min_margin < 1e-3:
+        # norm ties inside a max-pooling patch (typically a channel collapsed to +-const by a vector-neuron ReLU): the
+        # property requires equivariance of max pooling only where the maximum is attained at a unique pixel
+        labels.append("pool_tie_excluded")
+        return None, labels, evals, base_np
 
     def degenerate(blocks):
         """float32 carve-out: non-finite or astronomically large activations (ill-conditioned whitening far away from
@@ -96,15 +160,25 @@ def check_equivariance(cfg, model, prop="C07", evals_box=None):
         return worst
 
     def ill_conditioned(Xd):
-        """Round-off amplification guard: if a relative input perturbation of 1e-6 (float32 round-off scale) already moves
-        some output block by more than a quarter of the tolerance, a defect of that size says nothing about equivariance
-        (typical cause: a channel that is identically zero mathematically, e.g. an antisymmetric filter on a 2-pixel torus,
-        whose round-off noise is blown up by every normalisation layer)."""
+        """Round-off amplification guard: if a relative perturbation of 1e-6 (float32 round-off scale) of the input or of the
+        parameters already moves some output block by more than a quarter of the tolerance, a defect of that size says nothing
+        about equivariance. Typical causes: a channel that is identically zero mathematically (an antisymmetric filter on a
+        2-pixel torus) or that survives only as the eps-sized residue x - x*|v|/(|v|+eps) of a vector-neuron ReLU (cancellation
+        leaves ~1% relative noise), blown up again by every normalisation layer and by near-ties in max pooling."""
+        import equinox as eqx
+        import jax
+
         rngp = np.random.default_rng(12345)
-        Xp = {t: (a * (1.0 + 1e-6 * rngp.standard_normal(a.shape))).astype(np.float32) for t, a in Xd.items()}
         a0 = {t: np.asarray(v) for t, v in run(Xd).items()}
+        Xp = {t: (a * (1.0 + 1e-6 * rngp.standard_normal(a.shape))).astype(np.float32) for t, a in Xd.items()}
         a1 = {t: np.asarray(v) for t, v in run(Xp).items()}
-        return any(rel_defect(a1[t], a0[t], floor=FLOOR) > FLOAT_TOL / 4 for t in a0)
+        if any(rel_defect(a1[t], a0[t], floor=FLOOR) > FLOAT_TOL / 4 for t in a0):
+            return True
+        leaves, treedef = jax.tree_util.tree_flatten(model)
+        pert = [l * (1.0 + 1e-6 * jnp.asarray(rngp.standard_normal(l.shape), dtype=l.dtype)) if eqx.is_inexact_array(l) else l for l in leaves]
+        model_p = jax.tree_util.tree_unflatten(treedef, pert)
+        a2 = {t: np.asarray(v) for t, v in netgen.call_model(model_p, netgen.to_mi(d, Xd, tor)).items()}
+        return any(rel_defect(a2[t], a0[t], floor=FLOOR) > FLOAT_TOL / 4 for t in a0)
 
     for g in elems:
         evals += 1
